@@ -7,6 +7,7 @@
 //	rlpx_test.go      RLPx encryption handshake and framing over an in-memory, tamperable stream
 //	subproto_test.go  aqua sub-protocol messages into ProtocolManager.SubProtocols[i].Run
 //	server_test.go    p2p.Server as the connection handler: rejected / dying inbound connections, base-protocol messages, Stop
+//	stall_test.go     p2p.Server: sessions that end while the node's writes to them are blocked (remote stopped reading, keep-alive ping due)
 package c17
 
 import (
@@ -60,6 +61,11 @@ func TestMain(m *testing.M) {
 		"srv:hs-disc-reason:0-16", "srv:hs-disc-reason:18..2^63-1", "srv:disc-enumerated",
 		"srv:read-loop-frame-while-handler-holds", "srv:frames-while-handler-holds:2", "srv:peer-snappy:false", "srv:peer-snappy:true", "srv:log-formats-all",
 	)
+	ev.MustHit(
+		// layer 4b: sessions that end while the node's write to them (and its keep-alive ping behind it) is blocked
+		"stall:teardown-while-write-and-ping-blocked", "stall:node-write-blocked", "stall:end-past-ping",
+		"stall:peer-forgotten", "stall:same-identity-served-again", "stall:stop-returned",
+	)
 	ev.MustHitThorough("size:>64KiB", "size:~16MiB", "write-refused-too-large", "fetch:valid-block-imported")
 	ev.Main(m, ev.Config{
 		Property: "C17",
@@ -77,6 +83,9 @@ func TestMain(m *testing.M) {
 			"0-12 inbound connections that are rejected or die early, from 127.0.0.1 / 127.0.0.2 / 127.0.0.77 (connect-and-close, silent, attacker bytes as auth packet incl. correctly ECIES-sealed ones, a real auth packet cut at a generated length, a completed encryption handshake followed by close / a disconnect message / a handshake with a wrong, zero or short id / without a matching capability / garbage / another code / more than 2 KiB, a complete peer that drops dead; some stay open while later ones arrive, also more than there are slots); " +
 			"then a legitimate peer (devp2p v4 / v5+snappy, any name, extra capabilities and fields) that must get both handshakes and a sub-protocol message echoed; then 0-8 messages on its session from {sub-protocol message 0 B-64 KiB which the node's handler keeps unconsumed for up to 0-3 further messages, ping, pong, other base-protocol codes with any payload up to 64 KiB, disconnect with reasons 0..2^64-1 in regular and 10 malformed encodings, a code outside every protocol} plus up to 2 frames behind a final one; " +
 			"every message the node's handler consumed is echoed with its declared size and must equal what was written (in order), the connection always ends up either served (its last message echoed) or closed by the node and never silent, a session of nothing but sub-protocol messages and canonical pings / pongs must be served (other base-protocol traffic may be rejected by closing; pongs are counted, not demanded), a session that was ended is closed by the node; then a second legitimate peer must be served and Server.Stop must return; " +
+			"(4b) teardown under blocked writes: one case = one real Server (1/2/3/5 handshake slots, logger formatting or not) and 4-8 legitimate peers over loopback TCP (receive buffer 4 KiB) that connect and run CONCURRENTLY; each is served, then asks for an echo of 1/3/6/8 MiB (more than the kernel buffers between the two ends hold: observed per session in /proc/net/tcp) or stays idle, sends 0-20 pings behind it and never reads again, " +
+			"waits 0-14 s (before the node's first keep-alive ping, due 15 s after the peer started) or 15.3-16.5 s (the ping is due and waits behind the blocked write), then ends the session by one of {a correctly sealed frame with one bit flipped / one byte missing at a generated position, raw garbage, a disconnect message (regular and malformed reasons), a code outside every protocol, a half-close, nothing} and drops the connection 0-1 s later; " +
+			"required: the server forgets the peer (Server.Peers) within 30 s of the drop, the SAME identity then connects again and is served, afterwards a fresh peer is served and Server.Stop returns; every case has at least one session whose end falls while the node's write and ping are blocked; distinct by the sessions' parameters; " +
 			"plus, enumerated, the regular disconnect message for 32 reason values (all defined ones, 16/17/18, byte/word edges, 2^63, 2^64-1) before the protocol handshake and from a running peer; every case is non-trivial; distinct by the trace of connections and messages",
 		Assumptions: []string{
 			"the reference envelope codec (harness/c17/refdisc.go: btcec signatures, x/crypto keccak, refrlp) is a correct reading of the discv4 wire format; it shares no code with p2p/discover, crypto or rlp",
@@ -87,7 +96,8 @@ func TestMain(m *testing.M) {
 			"sub-protocol messages travel over p2p.MsgPipe with Size equal to the real payload length (as RLPx framing guarantees); a declared size > 10 MiB is backed by a lazy reader of that many bytes",
 			"a panic in a goroutine owned by the node (fetcher, downloader, tx pool, discovery loops) kills the test process; the case in flight is in the file 'inflight' of the working directory and the driver reports the crash log",
 			"p2p.Server cases use real loopback TCP: a step that takes milliseconds (the node answering an auth packet or a protocol handshake, echoing a message, closing a connection it has given up, Stop returning) is a violation only when it has not happened after 20 s; connections that the generator leaves open are closed before a step that needs an answer when they could occupy every slot (otherwise the node's own 5 s handshake timeout would be waited for; that is generated in the thorough tier only, with at most as many stalled connections as slots)",
-			"the sub-protocol the test Server runs is an echo handler written like the node's own handlers (reads from rw, consumes every payload completely); message code k lets it go back to ReadMsg with up to k earlier messages not yet consumed, the deterministic stand-in for a handler that is still busy with a message while Peer.readLoop reads the following frames",
+			"teardown cases (4b): the remote always drops its connection (with unread data, i.e. a reset) at most 1 s after it ended the session, so every blocked write of the node fails at once and the 30 s bound is generous; a remote that ends a session but keeps the socket open without reading is NOT generated (the node then waits for its own 20 s frameWriteTimeout once per queued write; the statement sets no bound for that); the waits of 0-16.5 s only aim at an interleaving and decide nothing; whether the node's write was really blocked is read from /proc/net/tcp (bytes in the kernel < size of the echo) and only sets labels",
+		"the sub-protocol the test Server runs is an echo handler written like the node's own handlers (reads from rw, consumes every payload completely); message code k lets it go back to ReadMsg with up to k earlier messages not yet consumed, the deterministic stand-in for a handler that is still busy with a message while Peer.readLoop reads the following frames",
 			"a panic in a goroutine of the Server (listenLoop, SetupConn, run, runPeer, Peer.readLoop) kills the test process and is reported by the driver as a crash; the listed finding p2p/disc-reason-out-of-table is stepped around exactly: a disconnect payload whose first list element is a canonical integer equal to 17 or >= 2^63",
 			"GetBlockHeaders answers are compared with a reference traversal only where the handler's arithmetic does not wrap (skip < 2^62, amount < 2^63) and below the harness-built stable head; beyond that only authenticity (every header is one this harness built) is demanded",
 		},
